@@ -813,6 +813,12 @@ def check_cfg_linearity(
                 # the second, more fine-grained, analysis based on places.
                 if x not in live_before_bb and x not in scope.vars:
                     continue
+                # A place of the input scope that was reassigned in this BB is shadowed
+                # by the local place: the local place is checked on its own, and a leak
+                # of the shadowed value is reported by the predecessors since it is not
+                # live at the start of this BB
+                if x in scope.vars and scope.vars[x] is not leaf:
+                    continue
                 used_later = all(x in live_before[succ] for succ in bb.successors)
                 if not leaf.ty.droppable and not scope.used(x) and not used_later:
                     err = PlaceNotUsedError(scope[x].defined_at, leaf)
